@@ -18,6 +18,9 @@ What is modelled and what is abstracted
 * `visibility` is an `Option` of a canonical key string such that `is_same_visibility a b` iff the keys are
   equal, the key of `VisibilityKind::Inherited` being the empty string.  Top-level trees always
   have `Some`, nested trees and `from_path` trees have `None`.
+* `normalize` keeps a nested element with an empty path when it carries a comment; nested comments
+  are not located, so the model removes every nested element with an empty path (exact for trees
+  without a comment on such an element).
 * `attrs` is an `Option` of the rendered attribute text (`None` = no attributes; `Some` is never
   empty on the paths that reach these functions, see `from_ast_with_normalization`).
 * A Rust panic is `Except.error .panic`.  `Err.fuel` is the out-of-fuel answer of the two
@@ -180,9 +183,15 @@ def normPath (cmp : Tree → Tree → Ordering) : Nat → Bool → Bool → List
             | some t => normPath cmp fuel hasAttrs hasVis (rest ++ t.path)
             | none =>
               -- "Recursively normalize elements of a list use (including sorting the list)." (:626-633)
+              -- an element that imports nothing (`foo::{}`, normalised to the empty path) is removed;
+              -- when one was, the whole tree is normalised again (the list may now be empty or sole)
               match mapE (fun t => (normPath cmp fuel false false t.path).map Tree.mk) l with
               | .error e => .error e
-              | .ok l => .ok (rest ++ [.list (RF.Sort.stableSort cmp l)])
+              | .ok l' =>
+                let kept := l'.filter (fun t => !t.path.isEmpty)
+                let sorted := RF.Sort.stableSort cmp kept
+                if kept.length < l.length then normPath cmp fuel hasAttrs hasVis (rest ++ [.list sorted])
+                else .ok (rest ++ [.list sorted])
           | _ => .ok (rest ++ [last])
 
 /-- `UseTree::normalize` on a top-level item (`from_ast_with_normalization`, imports.rs:392-414). -/
@@ -434,17 +443,22 @@ def mergeLoop (cmp : Tree → Tree → Ordering) (g : Granularity) (sp : SharedP
       | .error e => .error e
       | .ok result' => mergeLoop cmp g sp ts result'
 
-/-- `Itertools::unique` with `Hash`/`Eq for UseTree` = **path only** (imports.rs:124-129, 891-895):
-keeps the first occurrence of every path, whatever its visibility, attributes or comments. -/
-def uniqueByPath : List Item → List Item → List Item
-  | [], _ => []
-  | t :: ts, seen =>
-    if seen.any (fun s => treeBEq s.tree t.tree) then uniqueByPath ts seen
-    else t :: uniqueByPath ts (seen ++ [t])
+/-- `UseTree::is_repeated_by`: `other` imports the same path under the same visibility, and neither
+has attributes or comments (`PartialEq for UseTree` alone compares paths only). -/
+def isRepeatedBy (self other : Item) : Bool :=
+  treeBEq self.tree other.tree && sameVis self.vis other.vis && self.attrs.isNone &&
+    other.attrs.isNone && !self.hasComment && !other.hasComment
 
-/-- imports.rs:252-264 `flatten_use_trees`. -/
+/-- The loop of `flatten_use_trees`: a tree is pushed unless an earlier kept one `is_repeated_by` it. -/
+def dedupItems : List Item → List Item → List Item
+  | [], result => result
+  | t :: ts, result =>
+    if result.any (fun s => isRepeatedBy s t) then dedupItems ts result
+    else dedupItems ts (result ++ [t])
+
+/-- `flatten_use_trees`. -/
 def flattenUseTrees (g : Granularity) (ts : List Item) : List Item :=
-  uniqueByPath ((ts.flatMap (flattenItem g)).map nestItem) []
+  dedupItems ((ts.flatMap (flattenItem g)).map nestItem) []
 
 /-- imports.rs:215-250 `normalize_use_trees_with_granularity`. -/
 def withGranularity (cmp : Tree → Tree → Ordering) (g : Granularity) (ts : List Item) :
@@ -682,11 +696,6 @@ end RF.Imports
 
 namespace RF.Imports
 
-/-- Hypothesis of `granularity_item_leaves_partial`: no import (path and alias) occurs twice in the
-run with different visibility or attributes (`unique()` would keep only the first). -/
-def dupSameKey (ls : List ItemLeaf) : Bool :=
-  ls.all fun x => ls.all fun y => !(x.leaf == y.leaf) || (x.vis == y.vis && x.attrs == y.attrs)
-
 /-- Every item of the run has nested trees with non-empty paths only (true of parser output). -/
 def neRun (its : List Item) : Bool := its.all fun it => nePath it.tree.path
 
@@ -695,12 +704,12 @@ end RF.Imports
 namespace RF.Imports
 
 /-- The hypothesis under which `normalize_use_trees_with_granularity g` is proved to keep the leaf
-set of (already normalised) items: nothing for `Preserve`; no duplicate import with different
-visibility/attributes for `Item` (finding: `unique()` compares paths only); `safeRun` otherwise. -/
+set of (already normalised) items: nothing for `Preserve`; non-empty
+nested paths for `Item`; `safeRun` otherwise. -/
 def safeFor (g : Granularity) (its : List Item) : Bool :=
   match g with
   | .preserve => true
-  | .item => neRun its && dupSameKey (runLeaves its)
+  | .item => neRun its
   | .crate => safeRun .crate its
   | .module => safeRun .module its
   | .one => safeRun .one its
